@@ -20,7 +20,8 @@ from .hist import hx
 OBL = [("Qsx.Props.C11", t) for t in ["Qsx.Props.C11.scan_total", "Qsx.Props.C11.scan_consumes_le", "Qsx.Props.C11.scan_never_divides_by_zero",
                                      "Qsx.Props.C11.lplex_init_safe", "Qsx.Props.C11.lplex_safe", "Qsx.Props.C11.lplex_scan_loop_safe",
                                      "Qsx.Props.C11.has_colon_before_fix_reads_behind_terminator", "Qsx.Props.C11.lplex_progress",
-                                     "Qsx.Props.C11.lplex_skip_monotone"]]
+                                     "Qsx.Props.C11.lplex_skip_monotone", "Qsx.Props.C11.mpslex_next_line", "Qsx.Props.C11.mpslex_safe",
+                                     "Qsx.Props.C11.mpslex_set_end_of_line"]]
 
 
 def mutate_tokens(rng, text, fmt):
@@ -253,16 +254,18 @@ def run(pid, tier, seed):
     from . import lextie
     lmodel = solvelib.Model(*proto.INF_LINE.split()[1:3])
     lex_compare = lextie.run(ev, rep, rng.fork("lextie"), exe, lmodel, quick)
+    mps_compare = lextie.run_mps(ev, rep, rng.fork("mpslextie"), exe, lmodel, quick)
     lmodel.run()
     lex_compare()
+    mps_compare()
     for thm, why in pr["failed"]:
         rep.violation("proof obligation no longer checks: %s (%s)" % (thm, why), {"theorem": thm, "why": why, "log": pr["log"][-2000:]},
                       signature={"symptom": "proof", "theorem": thm}, found_input=False)
     ev.cov["rule"] = ("valid LP/MPS files from the real writers and from the independent generator, mutated at token level (duplicate/swap/delete lines, repeated sections "
                       "introducing new names, 200-70000 character names, lines of up to 30000 terms, pathological literals), at byte level (bit flips, insertions, "
                       "deletions, control bytes, truncation) and random bytes, plain and in .gz/.bz2 containers (intact, truncated, corrupted, wrong extension, empty); "
-                      "mutated basis files; every read in a forked ASan child with a 20 s alarm; direct sessions on the lexical layer of the LP reader (text + call "
-                      "sequence, whole observable state compared with Qsx.LpLex after every call, memory behind the string terminators poisoned). "
+                      "mutated basis files; every read in a forked ASan child with a 20 s alarm; direct sessions on the lexical layers of the LP and the MPS reader (text + call "
+                      "sequence, whole observable state compared with Qsx.LpLex / Qsx.MpsLex after every call, memory behind the string terminators poisoned). "
                       "distinct = distinct (format, bytes) resp. (text, calls).")
     ev.assumptions += ["memory safety of the unmodelled reader code can only be exhibited by the sanitizer during these runs, not proved",
                        "files are limited to 64 KiB; numeric exponents are limited to 4 digits by the generators"]
